@@ -453,7 +453,14 @@ class BasicVisitor(NodeVisitor):
 
     def visit_num_literal(self, node, visited_children):
         num_literal = node.full_text[node.start : node.end].replace(" ", "")
-        return BasicLiteral(float(num_literal))
+        # Color BASIC reads a bare `.` as 0, an `E` without digits as E0 and a
+        # run of signs as their product; float() accepts none of these
+        signs = num_literal[: len(num_literal) - len(num_literal.lstrip("+-"))]
+        mantissa, _, exponent = num_literal[len(signs) :].partition("E")
+        mantissa = "0" if mantissa in ("", ".") else mantissa
+        exponent = exponent if exponent.strip("+-") else "0"
+        sign = "-" if signs.count("-") % 2 else ""
+        return BasicLiteral(float(f"{sign}{mantissa}E{exponent}"))
 
     def visit_int_literal(self, node, visited_children):
         num_literal = node.full_text[node.start : node.end].replace(" ", "")
